@@ -332,7 +332,8 @@ func randDef(r *kit.Rng) def {
 
 // variant changes exactly one parameter of d.  what: 0 tuning, 1 useClusterSize, 2 rate, 3 kind,
 // 4 extra field, 5 field order only (same configuration as far as sampling goes),
-// 6 two fields joined with a space (collides), 7 empty field name vs no field (collides when the list is empty)
+// 6 two fields joined with a space (collides).  Empty field names are not generated: they make
+// config.GetKeyFields panic at sampler creation.
 func variant(r *kit.Rng, d def, what int) def {
 	v := d
 	v.fields = append([]string{}, d.fields...)
@@ -368,8 +369,6 @@ func variant(r *kit.Rng, d def, what int) def {
 			sort.Strings(v.fields)
 			v.fields = append([]string{v.fields[0] + " " + v.fields[1]}, v.fields[2:]...)
 		}
-	case 7:
-		v.fields = []string{""}
 	}
 	return v
 }
@@ -405,8 +404,8 @@ func (comp) Gen(r *kit.Rng, maxLen int, tier string) kit.Case {
 				pool = append(pool, variant(r, b, 6))
 			} else {
 				e := b
-				e.fields = nil
-				pool = append(pool, e, variant(r, e, 7))
+				e.fields = []string{b.fields[0], "z"}
+				pool = append(pool, e, variant(r, e, 6))
 			}
 		}
 	}
@@ -461,11 +460,9 @@ func (comp) Gen(r *kit.Rng, maxLen int, tier string) kit.Case {
 			add("e", envCfg{defs: []def{{kind: "dyn", rate: 1, fields: []string{"x:emadynamic:2:[y]"}}}})
 			add("e:dynamic:1:[x", envCfg{defs: []def{{kind: "ema", rate: 2, fields: []string{"y]"}}}})
 			if r.Chance(50) {
-				// same trick inside one rules environment with two throughput types and different goals
-				add("q", envCfg{rules: true, defs: []def{
-					{kind: "tot", rate: 5, uc: r.Chance(50), fields: []string{"x:emathroughput:70:[y]"}},
-				}})
-				add("rules:q::totalthroughput:5:[x", envCfg{defs: []def{{kind: "emt", rate: 70, uc: r.Chance(50), fields: []string{"y]"}}}})
+				// same type, different goals: "e2:totalthroughput:50:[x:totalthroughput:70:[a]" twice
+				add("e2", envCfg{defs: []def{{kind: "tot", rate: 50, uc: r.Chance(70), fields: []string{"x:totalthroughput:70:[a"}}}})
+				add("e2:totalthroughput:50:[x", envCfg{defs: []def{{kind: "tot", rate: 70, uc: r.Chance(70), fields: []string{"a"}}}})
 			}
 		}
 		return c
